@@ -66,6 +66,14 @@ func runMonitors(f family, e *env, s *vt.Sched) []violation {
 	m.c17()
 	m.c18()
 	monitorsExtra(m)
+	// stored jobs: identity of id / payload and "the jobs behind a bad entry still run" are C12's subject too
+	if len(e.adapters) > 0 && m.props["C12"] {
+		for _, v := range append([]violation(nil), m.out...) {
+			if v.Prop == "C01" && (v.Kind == "identity" || v.Kind == "never-ran") {
+				m.add("C12", v.Kind, "%s", v.Detail)
+			}
+		}
+	}
 	return m.out
 }
 
@@ -113,12 +121,10 @@ func (m *mon) clean() bool { return !m.s.Hang && !m.s.Livelock && len(m.s.Panics
 
 // process-level crashes: any panic escaping a goroutine kills the real process
 func (m *mon) crashes() {
+	// a panic outside a worker function kills the real process: no property of the scenario survives it
 	for _, p := range m.s.Panics {
-		for _, prop := range []string{"C10", "C08", "C07", "C03", "C18", "C01"} {
-			if m.props[prop] {
-				m.add(prop, "panic", "a library or client goroutine panicked: %s", p)
-				break
-			}
+		for prop := range m.props {
+			m.add(prop, "panic", "a library or client goroutine panicked: %s", p)
 		}
 	}
 	if m.s.Livelock {
